@@ -60,6 +60,7 @@ func c08Values(thorough bool) []c08Val {
 func init() {
 	All["C08"] = &Check{Level: "exploration", Run: c08Run}
 	engine.RegisterWorker("c08", c08Worker)
+	engine.RegisterWorker("c08-overwrite", c08OverwriteWorker)
 }
 
 func c08Run(r *engine.Run) int {
@@ -68,7 +69,7 @@ func c08Run(r *engine.Run) int {
 	if r.Thorough() {
 		epns = []int{2, 3, 4096}
 	}
-	r.Rule = fmt.Sprintf("%d values (boundary alphabet of all storage classes + NULL, 1 KiB / 70 KiB text and blob, embedded NUL, invalid UTF-8, expression-produced values) x position {key, non-key} x entries_per_node %v; each case observes the value at 8 stages (in transaction, after commit, fresh connection, after merge with unrelated row, after merge with a losing conflicting insert, after vacuum, fresh after vacuum, unmentioned column) against a native table; non-trivial unless the value is NULL", len(vals), epns)
+	r.Rule = fmt.Sprintf("%d values (boundary alphabet of all storage classes + NULL, 1 KiB / 70 KiB text and blob, embedded NUL, invalid UTF-8, expression-produced values) x position {key, non-key} x entries_per_node %v; each case observes the value at 8 stages (in transaction, after commit, fresh connection, after merge with unrelated row, after merge with a losing conflicting insert, after vacuum, fresh after vacuum, unmentioned column) against a native table; plus, in the non-key column, every ORDERED PAIR (previous value, new value): INSERT the previous one, commit, UPDATE the column to the new one, observed in the transaction, after commit and from a fresh connection; non-trivial unless the value is NULL", len(vals), epns)
 	r.Bounds["values"] = len(vals)
 	r.Bounds["entries_per_node"] = epns
 	r.Assumptions = []string{"values outside the alphabet are not covered", "NaN cannot be bound (SQLite turns it into NULL before the extension sees it)"}
@@ -85,6 +86,20 @@ func c08Run(r *engine.Run) int {
 		r.Add("c08", c, res)
 		n++
 		if res.Data != nil && n%37 == 1 {
+			r.Sample(json.RawMessage(res.Data))
+		}
+	})
+	// overwrite stage: every ordered pair (previous value, new value) in the non-key column
+	var ocases []json.RawMessage
+	for i := range vals {
+		for _, epn := range epns {
+			ocases = append(ocases, engine.J(c08Case{I: i, Pos: "col", EPN: epn, Th: r.Thorough()}))
+		}
+	}
+	r.Bounds["overwrite_pairs"] = len(vals) * len(vals)
+	engine.Map("c08-overwrite", ocases, func(i int, c json.RawMessage, res *engine.Result) {
+		r.Add("c08-overwrite", c, res)
+		if res.Data != nil && i%29 == 0 {
 			r.Sample(json.RawMessage(res.Data))
 		}
 	})
@@ -301,4 +316,140 @@ func clip(s string, n int) string {
 		return s[:n] + fmt.Sprintf("...(%d bytes)", len(s))
 	}
 	return s
+}
+
+// ---- overwrite stage: UPDATE of the column itself, for every ordered pair (previous value, new value) ----
+//
+// The row is inserted with the previous value and committed; then the same column is UPDATEd to the new value.
+// What comes back (in the transaction, after commit, from a fresh connection) must be the NEW value, bit for bit
+// and with its typeof(), whatever the previous one was - in particular when the two compare equal across storage
+// classes (1 and 1.0, 0.0 and -0.0, 2^53 and 2^53.0).
+
+func c08OverwriteWorker(raw json.RawMessage) (res *engine.Result) {
+	var c c08Case
+	must(json.Unmarshal(raw, &c))
+	res = &engine.Result{}
+	vals := c08Values(c.Th)
+	v := vals[c.I]
+	defer func() {
+		if p := recover(); p != nil {
+			res.Violate("go-panic:"+engine.NormalizePanic(fmt.Sprint(p)), "panic: %v [overwrite, new value %s]", p, v.Name)
+			engine.Poisoned, res.Poisoned = true, true
+		}
+	}()
+	bind := func(x c08Val) (string, []interface{}) {
+		if x.V != nil {
+			return "?", []interface{}{x.V.Go()}
+		}
+		return x.Expr, nil
+	}
+	cls := func(x c08Val) string {
+		if x.V == nil {
+			return "expr"
+		}
+		if x.V.T == "t" && x.V.S == "" {
+			return "empty-text"
+		}
+		if len(x.Name) > 24 {
+			return x.V.T + "-long"
+		}
+		return x.V.T
+	}
+	sel := "select typeof(a), a, typeof(b), b, typeof(c), c from %s order by a"
+	for _, prev := range vals {
+		if len(prev.Name) > 24 && len(v.Name) > 24 {
+			continue // long x long adds nothing
+		}
+		where := fmt.Sprintf("previous value=%s new value=%s epn=%d", prev.Name, v.Name, c.EPN)
+		viol := func(stage, f string, a ...interface{}) {
+			class := "value-altered:" + cls(v) + ":col:" + stage + "-over-" + cls(prev)
+			visible := v
+			if stage == "after-refused-update" {
+				visible = prev // the UPDATE was refused: the previous value is what must be there
+			}
+			if cls(visible) == "empty-text" {
+				class = "empty-text-reads-null:col" // one root cause at every stage (see KNOWN_FINDINGS)
+			}
+			res.Violate(class, "[%s] "+f+" ["+where+"]", append([]interface{}{stage}, a...)...)
+		}
+		w := engine.NewWorld()
+		w.SetClock(engine.T(1000))
+		opts := engine.TableOpts{Columns: "a primary key, b, c", EPN: c.EPN}
+		w1 := w.NewClient("w1")
+		must(w1.Create(opts))
+		must(w1.Exec("create table nat(a primary key, b, c) without rowid"))
+		cmp := func(cl *engine.Client, stage string) bool {
+			want, _ := w1.Query(fmt.Sprintf(sel, "nat"))
+			got, err := cl.Query(fmt.Sprintf(sel, "{T}"))
+			res.Trans++
+			if err != nil {
+				viol(stage, "select failed: %v", err)
+				return false
+			}
+			if !got.Equal(want) {
+				viol(stage, "%s", clip(engine.Diff(want, got), 600))
+				return false
+			}
+			return true
+		}
+		func() {
+			defer w.Close()
+			pph, pargs := bind(prev)
+			must(w1.Exec("begin"))
+			for i := 0; i < 5; i++ { // a few neighbours so that epn=2 gives a multi-level tree
+				must(w1.Exec("insert into nat values(?,?,?)", fmt.Sprintf("p%d", i), i, nil))
+				must(w1.Exec("insert into {T} values(?,?,?)", fmt.Sprintf("p%d", i), i, nil))
+			}
+			nerr := w1.Exec("insert into nat(a,b) values('k1',"+pph+")", pargs...)
+			serr := w1.Exec("insert into {T}(a,b) values('k1',"+pph+")", pargs...)
+			if nerr != nil || serr != nil {
+				w1.Exec("rollback")
+				return // refusals of the INSERT are the main pass's business
+			}
+			if w1.Exec("commit") != nil {
+				w1.Exec("rollback")
+				return
+			}
+			w.SetClock(engine.T(1100))
+			vph, vargs := bind(v)
+			must(w1.Exec("begin"))
+			nerr = w1.Exec("update nat set b="+vph+" where a='k1'", vargs...)
+			serr = w1.Exec("update {T} set b="+vph+" where a='k1'", vargs...)
+			res.Execs++
+			if nerr != nil && serr == nil {
+				viol("update", "native refused (%v) but s3db accepted", nerr)
+				w1.Exec("rollback")
+				return
+			}
+			if serr != nil {
+				w1.Exec("rollback") // refused with an error: allowed; nothing may have changed
+				res.Outcomes = append(res.Outcomes, "update-refused")
+				cmp(w1, "after-refused-update")
+				return
+			}
+			res.NontrivN++
+			res.Outcomes = append(res.Outcomes, "updated")
+			if !cmp(w1, "update-in-transaction") {
+				w1.Exec("rollback")
+				return
+			}
+			if err := w1.Exec("commit"); err != nil {
+				w1.Exec("rollback")
+				res.Outcomes = append(res.Outcomes, "update-refused-at-commit")
+				cmp(w1, "after-refused-update")
+				return
+			}
+			if !cmp(w1, "update-after-commit") {
+				return
+			}
+			f := w.NewClient("fresh")
+			if err := f.Create(opts); err != nil {
+				viol("update-fresh", "re-open failed: %v", err)
+				return
+			}
+			cmp(f, "update-fresh-connection")
+		}()
+	}
+	res.Data = engine.J(map[string]interface{}{"stage": "overwrite", "new_value": v.Name, "previous_values": len(vals), "epn": c.EPN})
+	return res
 }
